@@ -283,20 +283,30 @@ def Conn.startPacket (c : Conn) : Conn :=
   | some (n, h) => { c with notify := n, sendActive := true, sendNotif := encodeNotifHeader h, sendBody := [] }
   | none => c   -- unreachable: a non-refresh fill never fails
 
+/-- the header that goes out with the packet: refreshed if the history still fits the space reserved for it,
+otherwise the placeholder written when the packet was started -/
+def Conn.finalHeader (c : Conn) : Notify × Bits :=
+  match c.notify.fillHeader true with
+  | some (n, h) => (n, encodeNotifHeader h)
+  | none => (c.notify, c.sendNotif)
+
+/-- the bits of the datagram a flush emits -/
+def Conn.packetBits (e : Env) (c : Conn) : Bits :=
+  outgoingHeader e c.lastSessionId c.lastClientId false ++ c.finalHeader.2 ++ c.sendBody ++ [true, true]
+
+/-- emit the pending packet (the send buffer is active) -/
+def Conn.flushNow (e : Env) (c : Conn) : Conn :=
+  { c with log := .out (bitsToBytes (c.packetBits e)) :: c.log, notify := c.finalHeader.1.commit, sendActive := false,
+           sendNotif := [], sendBody := [], lastSendMs := e.nowMs, outPacketId := c.outPacketId + 1 }
+
+/-- does `utcp_send_flush` emit a datagram now? -/
+def Conn.flushDue (e : Env) (c : Conn) : Bool :=
+  c.connected && (c.sendActive || decide (e.nowMs - c.lastSendMs ≥ keepAliveMs))
+
 /-- `utcp_send_flush` -/
 def Conn.flush (e : Env) (c : Conn) : Conn :=
-  if !c.connected then c else
-  let now := e.nowMs
-  if !c.sendActive && decide (now - c.lastSendMs < keepAliveMs) then c else
-  let c := if !c.sendActive then c.startPacket else c
-  -- refresh the header if the history still fits the space reserved for it
-  let (n, notif) := match c.notify.fillHeader true with
-    | some (n, h) => (n, encodeNotifHeader h)
-    | none => (c.notify, c.sendNotif)
-  let bits := outgoingHeader e c.lastSessionId c.lastClientId false ++ notif ++ c.sendBody ++ [true, true]
-  let c := c.emit (.out (bitsToBytes bits))
-  { c with notify := n.commit, sendActive := false, sendNotif := [], sendBody := [], lastSendMs := now,
-           outPacketId := c.outPacketId + 1 }
+  if !c.flushDue e then c else
+  (if c.sendActive then c else c.startPacket).flushNow e
 
 /-- `PrepareWriteBitsToSendBuffer` -/
 def Conn.prepareWrite (e : Env) (c : Conn) (total : Nat) : Conn :=
@@ -314,36 +324,39 @@ def Conn.writeInternal (e : Env) (c : Conn) (bits : Bits) : Conn × Int :=
 def Conn.writeBits (e : Env) (c : Conn) (bits : Bits) : Conn × Int :=
   (c.prepareWrite e bits.length).writeInternal e bits
 
-/-- result of a send: packet id, or the negative code of `SendRawBunch` -/
-def Conn.sendRaw (e : Env) (c : Conn) (b : Bunch) : Conn × Int :=
-  if b.chIndex ≥ maxChannels then (c, -3) else
-  if (c.getChan b.chIndex).isNone && !b.bOpen then (c, -2) else
+/-- the validation `SendRawBunch` performs before touching any state: the refusal code, or the measured
+header (written with a placeholder sequence: its size does not depend on the sequence value) -/
+def Conn.sendCheck (c : Conn) (b : Bunch) : Int ⊕ Bits :=
+  if b.chIndex ≥ maxChannels then .inl (-3) else
+  if (c.getChan b.chIndex).isNone && !b.bOpen then .inl (-2) else
   match encodeBunchHeader { b with chSeq := 0 } with
-  | none => (c, -1)
-  | some h0 =>
-    if h0.length + b.data.length > maxSingleBunchBits then (c, -4) else
-    let (c, x?) := c.getOrCreateChan b false
-    match x? with
-    | none => (c, -2)
-    | some _ =>
-      let c := c.noteClose b
-      match c.getChan b.chIndex with
-      | none => (c, -2)
-      | some x =>
-        let (c, b, hdr) :=
-          if b.bReliable then
-            let x := { x with outReliable := x.outReliable + 1 }
-            let b := { b with chSeq := x.outReliable }
-            (c.setChan b.chIndex x, b, (encodeBunchHeader b).getD h0)
-          else (c, { b with chSeq := 0 }, h0)
-        let c := c.prepareWrite e (hdr.length + b.data.length)
-        let (c, pid) := c.writeInternal e (hdr ++ b.data)
-        if b.bReliable then
-          let c := c.emit (.alloc .node)
-          match c.getChan b.chIndex with
-          | none => (c, pid)
-          | some x => (c.setChan b.chIndex { x with outRec := x.outRec ++ [{ packetId := pid, bits := hdr ++ b.data }] }, pid)
-        else (c, pid)
+  | none => .inl (-1)
+  | some h0 => if h0.length + b.data.length > maxSingleBunchBits then .inl (-4) else .inr h0
+
+/-- append a retransmission record (`add_ougoing_data`) -/
+def Conn.addOutRec (c : Conn) (ch : Nat) (pid : Int) (bits : Bits) : Conn :=
+  match c.getChan ch with
+  | none => c
+  | some x => c.setChan ch { x with outRec := x.outRec ++ [{ packetId := pid, bits := bits }] }
+
+/-- the effects of an accepted send; returns the id of the packet that carries the bunch -/
+def Conn.sendCommit (e : Env) (c : Conn) (b : Bunch) (h0 : Bits) : Conn × Int :=
+  let c1 := (c.getOrCreateChan b false).1.noteClose b
+  match c1.getChan b.chIndex with
+  | none => (c1, -2)      -- unreachable: `sendCheck` has established that the channel exists or is being opened
+  | some x =>
+    let seq : Int := if b.bReliable then x.outReliable + 1 else 0
+    let hdr := if b.bReliable then (encodeBunchHeader { b with chSeq := seq }).getD h0 else h0
+    let c2 := if b.bReliable then c1.setChan b.chIndex { x with outReliable := seq } else c1
+    let c3 := c2.prepareWrite e (hdr.length + b.data.length)
+    let c4 := (c3.writeInternal e (hdr ++ b.data)).1
+    (if b.bReliable then (c4.emit (.alloc .node)).addOutRec b.chIndex c3.outPacketId (hdr ++ b.data) else c4, c3.outPacketId)
+
+/-- `SendRawBunch`: packet id, or the negative refusal code -/
+def Conn.sendRaw (e : Env) (c : Conn) (b : Bunch) : Conn × Int :=
+  match c.sendCheck b with
+  | .inl err => (c, err)
+  | .inr h0 => c.sendCommit e b h0
 
 /-- `utcp_send_bunch` -/
 def Conn.sendBunch (e : Env) (c : Conn) (b : Bunch) : Conn × Int :=
